@@ -734,7 +734,11 @@ fn synth_binary(
         }
         Op::LogicShiftL | Op::LogicShiftR | Op::ArithShiftL | Op::ArithShiftR => {
             let xs = synthesize_expr(ctx, x, current, result_width)?;
-            let signed_ext = matches!(op, Op::ArithShiftR);
+            // `>>>` fills with the sign bit only for a signed operand (IEEE
+            // 1800-2017 11.4.10); on an unsigned one it is a logical shift.
+            let x_is_select = matches!(x, Expression::Term(f)
+                if matches!(f.as_ref(), Factor::Variable(_, _, select, _) if !select.is_empty()));
+            let signed_ext = matches!(op, Op::ArithShiftR) && signed && !x_is_select;
             if let Some(amount) = try_constant(y).map(|n| n as usize) {
                 Ok(arith::constant_shift(ctx, &xs, op, amount, signed_ext))
             } else {
